@@ -5,9 +5,11 @@ Two threads share: the flag `is_done`, the breakpoint set (under a mutex), a bou
 parser thread's park token. The parse itself is abstracted to the finite list of rule entries
 `(rule, pos)` that `Vm::parse_rule` reports to the listener, followed by the final outcome
 (`Eof` / `Error`); C01 relates that list to the VM. Once the listener has returned `true` the VM
-fails the rule being entered with a fresh `ParserState`; the enclosing expressions go on (every further
+fails the rule being entered; the enclosing expressions go on (every further
 rule entry asks the listener again, which answers `true` again) and the parse ends with `Ok`, with `Err`
-or with a panic of the parser thread (`rule()` indexing the fresh state's empty queue) — all three happen.
+or with a panic of the parser thread (`rule()` indexing the fresh state's empty queue: what happened before the repair
+dc3964d, after which the VM fails the rule on the state it was given; the outcome stays in the model so that the check can
+represent — and report — a regression; `Thm/C17.restart_starts_new_run` is about runs without it).
 What happens after an abort at entry `k` is a function of grammar and input, given to the model as
 `abortInfo[k] = (further listener calls, outcome)`.
 
